@@ -119,7 +119,10 @@ impl<S: Store> RateLimiter<S> {
         // Calculate rate parameters
         let rate = Rate::from_count_and_period(count_per_period, period);
         let emission_interval = rate.period();
-        let delay_variation_tolerance = emission_interval * (max_burst - 1) as u32;
+        // Work in saturating i64 nanoseconds: `Duration * u32` panics on overflow and
+        // `(max_burst - 1) as u32` silently truncates large bursts.
+        let emission_interval_ns = emission_interval.as_nanos().min(i64::MAX as u128) as i64;
+        let delay_variation_tolerance_ns = emission_interval_ns.saturating_mul(max_burst - 1);
         let limit = max_burst;
 
         // Convert time to nanoseconds, handling potential errors gracefully
@@ -149,10 +152,6 @@ impl<S: Store> RateLimiter<S> {
 
         loop {
             let tat_val = self.store.get(key, now).map_err(CellError::Internal)?;
-
-            // Calculate the theoretical arrival time for this request
-            let emission_interval_ns = emission_interval.as_nanos() as i64;
-            let delay_variation_tolerance_ns = delay_variation_tolerance.as_nanos() as i64;
 
             // Initialize TAT or get from store
             let tat = if let Some(stored_tat) = tat_val {
@@ -214,7 +213,7 @@ impl<S: Store> RateLimiter<S> {
 
             // Calculate the distance from TAT to the burst limit
             // The burst limit is at now + delay_variation_tolerance
-            let burst_limit = now_ns + delay_variation_tolerance_ns;
+            let burst_limit = now_ns.saturating_add(delay_variation_tolerance_ns);
             let room_until_limit = burst_limit.saturating_sub(current_tat);
 
             // Convert room to number of tokens
